@@ -1,10 +1,26 @@
 package kit
 
 import (
+	"bytes"
 	"fmt"
+	"runtime"
+	"strconv"
 	"sync"
 	"time"
 )
+
+// goID returns the id of the calling goroutine (parsed from the stack header;
+// used only to tell scheduled threads from free-running goroutines).
+func goID() int64 {
+	var buf [64]byte
+	n := runtime.Stack(buf[:], false)
+	f := bytes.Fields(buf[:n])
+	if len(f) < 2 {
+		return -1
+	}
+	id, _ := strconv.ParseInt(string(f[1]), 10, 64)
+	return id
+}
 
 // Cooperative scheduler: logical threads run one at a time; every other
 // thread is parked inside a yield call (the verif yield hook of the handler,
@@ -22,6 +38,7 @@ type Thread struct {
 	Done    bool
 	Point   string // where it is parked ("" before start / after end)
 	Trace   []string
+	gid     int64
 }
 
 // Sched owns the threads.
@@ -53,6 +70,11 @@ func (s *Sched) Yield(point string) {
 	if t == nil {
 		return
 	}
+	// goroutines that are not scheduled threads (free-running queries, helper
+	// goroutines of the code under test) pass straight through
+	if t.gid != goID() {
+		return
+	}
 	if s.Filter != nil && !s.Filter(point) {
 		return
 	}
@@ -76,11 +98,15 @@ func (s *Sched) Advance(t *Thread) (string, error) {
 	s.mu.Unlock()
 	if !t.Started {
 		t.Started = true
+		ready := make(chan struct{})
 		go func() {
+			t.gid = goID()
+			close(ready)
 			<-t.resume
 			t.fn()
 			t.parked <- ""
 		}()
+		<-ready
 	}
 	t.resume <- struct{}{}
 	var p string
